@@ -153,6 +153,20 @@ class RFrame:
                 ok = _and(*present) if how == "any" else _or(*present)
                 return self.derive(mult=_ite(ok, self.mult, 0), note=f"dropna({subset}, how={how})")
             return _Callable(dropna)
+        if name == "replace":
+            def replace(to_replace=None, value=None, *a, **k):
+                import math
+                lst = list(to_replace) if isinstance(to_replace, (list, tuple)) else [to_replace]
+                c = as_cell(interp, value, node)
+                if a or k or not all(isinstance(x, float) and math.isinf(x) for x in lst):
+                    raise Unsupported("DataFrame.replace other than of infinities (row-wise model)", node)
+                kinds = [PINF if x > 0 else NINF for x in lst]
+                cells = OrderedDict()
+                for col, cell in self.cells.items():
+                    hit = _or(*[_eq(cell.kind, kk) for kk in kinds])
+                    cells[col] = cell_ite(hit, c, cell)
+                return self.derive(cells=cells)
+            return _Callable(replace)
         if name in ("first_valid_index", "last_valid_index"):
             def valid_index(*a, **k):
                 # the first / last label whose row has at least one present cell
